@@ -41,6 +41,10 @@ type descriptor struct {
 	// definitions default, "expr", "xpath"): one token evaluates conditions
 	// written in different expression languages at the same gateway
 	FlowLang []string `json:"flowLang,omitempty"`
+	// InSub (one token only): the gateway and its branches sit inside an
+	// embedded sub-process; the upstream task - whose answer may store what
+	// the conditions read - sits outside, in front of it
+	InSub bool `json:"inSub,omitempty"`
 }
 
 type built struct {
@@ -72,13 +76,29 @@ func build(d descriptor) *built {
 	b := gen.NewB()
 	bt := &built{Vars: map[string]any{}, Objects: map[string]any{}}
 	st := b.Add(gen.KStart)
+	root := b
+	var sub *gen.Node
+	if d.InSub && d.Tokens == 1 {
+		sub = b.Add(gen.KSub)
+		ib := b.Sub()
+		sub.Inner = ib.G
+		b = ib
+	}
 	g := b.Add(gen.KXor)
 	bt.G = g.ID
 	if d.Tokens == 1 {
-		up := b.Add(gen.KTask)
+		up := root.Add(gen.KTask)
 		bt.Up = append(bt.Up, up.ID)
-		b.Connect(st, up)
-		b.Connect(up, g)
+		root.Connect(st, up)
+		if sub != nil {
+			root.Connect(up, sub)
+			oe := root.Add(gen.KEnd)
+			root.Connect(sub, oe)
+			is := b.Add(gen.KStart)
+			b.Connect(is, g)
+		} else {
+			b.Connect(up, g)
+		}
 	} else {
 		fork := b.Add(gen.KPar)
 		b.Connect(st, fork)
@@ -175,7 +195,7 @@ func build(d descriptor) *built {
 		case "dataobject":
 			name := fmt.Sprintf("do%d", ci)
 			bt.Objects[name] = truth
-			b.G.DataObjects = append(b.G.DataObjects, name)
+			root.G.DataObjects = append(root.G.DataObjects, name)
 			f.Cond = gen.Lit(truth)
 			if d.Lang == "xpath" {
 				f.Raw = fmt.Sprintf("getDataObject('%s')", name)
@@ -199,10 +219,10 @@ func build(d descriptor) *built {
 		}
 		sort.Strings(names)
 		for _, id := range bt.Up {
-			b.G.Node(id).Results = names
+			root.G.Node(id).Results = names
 		}
 	}
-	bt.Prog = &gen.Program{G: b.G, DefaultLang: d.Lang, DeclSeed: d.DeclSeed}
+	bt.Prog = &gen.Program{G: root.G, DefaultLang: d.Lang, DeclSeed: d.DeclSeed}
 	return bt
 }
 
@@ -512,6 +532,7 @@ func TestC04Random(t *testing.T) {
 		d := descriptor{NC: nc, DefPos: rapid.IntRange(-1, nc).Draw(rt, "defPos"), Tokens: rapid.IntRange(1, 3).Draw(rt, "tokens"),
 			Lang: rapid.SampledFrom([]string{"expr", "xpath"}).Draw(rt, "lang"), DeclSeed: rapid.IntRange(0, 500).Draw(rt, "declSeed"),
 			Burst: rapid.Bool().Draw(rt, "burst"), Funnel: rapid.Bool().Draw(rt, "funnel")}
+		d.InSub = d.Tokens == 1 && rapid.IntRange(0, 2).Draw(rt, "inSub") == 0
 		if d.DefPos >= 0 {
 			d.DefCond = rapid.SampledFrom([]string{"", "", "false", "true"}).Draw(rt, "defCond")
 		}
